@@ -121,12 +121,12 @@ def r1_grid(ctx):
                 okm = any(e.kind == "call" and callee(e.data[0]) == "verde.utils.check_meshgrid" and e.data[0][2] == (("param", "coordinates"),) for e in p.events)
                 ctx.check("R1", "%s|given-2d-coordinates|%s" % (qn, tag), True if (okm and coords == ("param", "coordinates")) else (False if not okm else None),
                           "2-D coordinates are used as given after check_meshgrid", bad="2-D coordinates are not validated by check_meshgrid", fn=qn)
-    K.roles_rule(ctx, "R1", [qn], with_return=False)
+    K.roles_rule(ctx, "R1", [qn], with_return=False, require={qn: [{"region-arg"}, {"coords-arg", "dims-arg"}]})
 
 
 def r2_make_xarray_grid(ctx, rule="R2"):
     qn = "verde.utils.make_xarray_grid"
-    K.roles_rule(ctx, rule, [qn], with_return=False)
+    K.roles_rule(ctx, rule, [qn], with_return=False, require={qn: [{"dict-entry", "zip-name-array", "name-array-pair"}]})
     paths = [p for p in ctx.paths(qn) if p.exit == "return"]
     dims = ("param", "dims")
     n_dv = n_ex = 0
@@ -179,7 +179,8 @@ def callee_is(t, name):
 
 
 def r3_mesh(ctx, rule="R3"):
-    K.roles_rule(ctx, rule, ["verde.utils.meshgrid_to_1d", "verde.utils.meshgrid_from_1d", "verde.utils.check_meshgrid"])
+    K.roles_rule(ctx, rule, ["verde.utils.meshgrid_to_1d", "verde.utils.meshgrid_from_1d", "verde.utils.check_meshgrid"],
+                 require={"verde.utils.meshgrid_to_1d": [{"mesh-slice"}], "verde.utils.meshgrid_from_1d": [{"meshgrid-operands"}], "verde.utils.check_meshgrid": [{"mesh-slice"}]})
     # meshgrid_to_1d validates first
     qn = "verde.utils.meshgrid_to_1d"
     K.precedes(ctx, rule, qn, K.is_call("verde.utils.check_meshgrid"), lambda e: False, "check_meshgrid-called", "", require_second=False)
@@ -193,7 +194,7 @@ def r3_mesh(ctx, rule="R3"):
 
 def r4_profile(ctx):
     qn = PROFILE
-    K.roles_rule(ctx, "R4", [qn], with_return=False)
+    K.roles_rule(ctx, "R4", [qn], with_return=False, require={qn: [{"name-array-pair", "dict-entry"}]})
     for p in ctx.paths(qn):
         if p.exit != "return":
             continue
@@ -260,7 +261,7 @@ def r4_profile(ctx):
 
 def r5_scatter(ctx):
     for qn in SCATTERS:
-        K.roles_rule(ctx, "R5", [qn], with_return=False)
+        K.roles_rule(ctx, "R5", [qn], with_return=False, require={qn: [{"name-array-pair", "dict-entry"}, {"region-arg"}]})
         for p in ctx.paths(qn):
             if p.exit != "return":
                 continue
